@@ -17,8 +17,8 @@ use crate::coroutine_impl::{
 use crate::scheduler::get_scheduler;
 use crate::sync::atomic_dur::AtomicDuration;
 use crate::sync::AtomicOption;
-use crate::timeout_list::TimeoutHandle;
-use crate::yield_now::{get_co_para, yield_now, yield_with};
+use crate::timeout_list::{now, TimeoutHandle};
+use crate::yield_now::{get_co_para, set_co_para, yield_now, yield_with};
 
 // wait for the kernel side (`subscribe`) to finish with this park.
 // This must not be a cancellation point: for a cancelled coroutine `yield_now`
@@ -221,10 +221,11 @@ impl EventSource for Park {
         let cancel = co_cancel_handle(&co);
         // if we share the same park, the previous timer may wake up it by false
         // if we not deleted the timer in time
-        let timeout_handle = self
-            .timeout
-            .take()
-            .map(|dur| get_scheduler().add_timer(dur, self.wait_co.clone()));
+        let mut deadline = None;
+        let timeout_handle = self.timeout.take().map(|dur| {
+            deadline = Some(now().saturating_add(dur.as_nanos() as u64));
+            get_scheduler().add_timer(dur, self.wait_co.clone())
+        });
         self.set_timeout_handle(timeout_handle);
         #[cfg(may_verif)]
         crate::verif::label("park.subscribe.timer_armed", Arc::as_ptr(&self.wait_co) as usize);
@@ -235,6 +236,18 @@ impl EventSource for Park {
         self.wait_co.store(co);
         #[cfg(may_verif)]
         crate::verif::label("park.subscribe.stored", Arc::as_ptr(&self.wait_co) as usize);
+
+        // re-check the timer: if it fired before the coroutine was registered it
+        // found nobody, the timeout would be lost and the park never return
+        if deadline.is_some_and(|d| now() >= d) {
+            let wait_co = self.wait_co.clone();
+            drop(_g);
+            if let Some(mut co) = wait_co.take() {
+                set_co_para(&mut co, std::io::Error::new(ErrorKind::TimedOut, "timeout"));
+                run_coroutine(co);
+            }
+            return;
+        }
 
         // re-check the state, only clear once after resume
         if self.state.load(Ordering::Acquire) {
